@@ -1,5 +1,6 @@
 pub mod c01;
 pub mod c02;
+pub mod c03;
 pub mod c05;
 pub mod c10;
 pub mod c16;
@@ -10,6 +11,8 @@ pub fn scenario(id: &str) -> Option<Box<dyn Scenario>> {
     Some(match id {
         "C01" => Box::new(c01::C01),
         "C16" => Box::new(c16::C16),
+        "C03" => Box::new(c03::C03),
+        "C07" => Box::new(c03::C07),
         "C05" => Box::new(c05::C05),
         "C06" => Box::new(c05::C06),
         "C10" => Box::new(c10::C10),
